@@ -213,6 +213,9 @@ def repeat_samples_to_duration(samples, sample_rate, duration):
   """
   sequence_duration = len(samples) / sample_rate
   num_repeats = int(math.ceil(duration / sequence_duration))
+  if num_repeats == 0:
+    # Nothing to concatenate (np.concatenate rejects an empty list).
+    return samples[:0]
   repeated_samples = np.concatenate([samples] * num_repeats)
   trimmed = crop_samples(
       repeated_samples, sample_rate,
